@@ -196,9 +196,10 @@ PROPS = {
     ),
     "C20": dict(
         pkg=MO,
-        explanation="model.EqualObjects (with equalDicts/equalArrays and one-level dereferencing through an XRefTable) executed symbolically on pairs of object trees of depth <= 2 (leaf, array or dict of <= W entries; leaf kinds null, Boolean, Integer, Name, StringLiteral, HexLiteral, indirect reference to a defined or undefined object) with symbolic leaf values: whenever it answers 'equal' an independent structural comparison must agree",
+        explanation="model.EqualObjects (with equalDicts/equalArrays and one-level dereferencing through an XRefTable) executed symbolically on pairs of object trees of depth <= 2 (leaf, array or dict of <= W entries; leaf kinds null, Boolean, Integer, Name, StringLiteral, HexLiteral, indirect reference to a defined or undefined object) with symbolic leaf values: whenever it answers 'equal' an independent structural comparison must agree; consolidateResources (the accumulation of inherited page resources that the optimiser then prunes per page) never aliases a dictionary of the document, for every shape of inherited state and node resources (direct / indirect)",
         outside="that the whole optimisation pass preserves what the document shows; stream dictionaries and font dictionaries (font-name prefix rule); trees deeper than 2; cyclic reference graphs",
-        harnesses=[dict(name="VerifEqualObjectsSound", bounds=dict(quick=dict(W=1), thorough=dict(W=2)), opts=dict(unwind=100), opts_thorough=dict(maxpaths=60000000, walltime=10000))],
+        harnesses=[dict(name="VerifEqualObjectsSound", bounds=dict(quick=dict(W=1), thorough=dict(W=2)), opts=dict(unwind=100), opts_thorough=dict(maxpaths=60000000, walltime=10000)),
+                   dict(name="VerifConsolidateNoAliasing", opts=dict(unwind=200))],
     ),
     "C22": dict(
         pkg=PD,
